@@ -1,6 +1,7 @@
 (* c13 driver.  stdin: one case per line.
      R s1 e1 s2 e2 ...            -> remove_overlaps on those spans; prints kept ids
-     A kind a b | src cps | cs cps -> Suggestion::apply;            prints "P" or "O cps" *)
+     A kind a b | src cps | cs cps -> Suggestion::apply;            prints "P" or "O cps"
+     B a a' s1 e1 s2 e2 ...        -> chunk-cache re-basing of those spans from chunk start a to a'; prints "P" or the spans *)
 let rec pairs = function a :: b :: t -> (nat_of_int a, nat_of_int b) :: pairs t | _ -> []
 let () =
   iter_lines (fun l ->
@@ -19,5 +20,12 @@ let () =
                    | None -> print_endline "P"
                    | Some t -> print_endline (String.trim ("O " ^ line_of_text t)))
               | _ -> print_endline "?")
+         | _ -> print_endline "?")
+    | 'B' ->
+        (match ints_of_line body with
+         | a :: a2 :: rest ->
+             (match run_rebase (nat_of_int a) (nat_of_int a2) (pairs rest) with
+              | None -> print_endline "P"
+              | Some r -> print_endline (String.trim (String.concat " " (List.map (fun (x, y) -> string_of_int (int_of_nat x) ^ " " ^ string_of_int (int_of_nat y)) r))))
          | _ -> print_endline "?")
     | _ -> print_endline "?")
